@@ -661,13 +661,15 @@ func runC17(r *vf.Run) {
 			return
 		}
 		if r.Replay() {
-			var sel []c17History
-			for _, h := range todo {
+			// the child carries state from one history to the next (connection cache, caches inside the driver), so a
+			// replay runs the chunk from its start up to and including the recorded history
+			last := -1
+			for i, h := range todo {
 				if r.Want(cid + "/" + h.ID) {
-					sel = append(sel, h)
+					last = i
 				}
 			}
-			todo = sel
+			todo = todo[:last+1]
 		}
 		attempt := 0
 		for len(todo) > 0 && attempt < 40 && atomic.LoadInt64(&hangs) < 3 {
